@@ -67,6 +67,15 @@ class ScriptedSocket:
         self.log.append([n, k])
         return chunk
 
+    def recv_into(self, buffer, nbytes=0, *flags):
+        """the same scripted stream through the buffer interface: a receiver that fills a preallocated buffer
+        (socket.recv_into) is the same algorithm as far as Framing.tla is concerned - one recv(n) event per call"""
+        view = memoryview(buffer).cast('B')
+        n = nbytes or len(view)
+        chunk = self.recv(n, *flags)
+        view[:len(chunk)] = chunk
+        return len(chunk)
+
 
 class ScriptedSendSocket:
     """The sender's side of the transport: accepts what send_msg writes.  sendall() takes everything (that is its contract);
